@@ -110,6 +110,17 @@ def run(ctx):
     watch.close()
     ctx.extra["functions_never_entered"] = watch.never_entered()
 
+    # (a') the same question asked by two threads at once, two different first-time questions at once, temperatures and
+    # levels at once (deterministic line scheduler, units of the scenario's own with exact ratios): every thread gets
+    # magnitude x size(source) / size(target), and so does whoever asks afterwards
+    if ctx.shard == 1 % ctx.nshards:
+        from .. import concurrent_conv
+        mon.paused = True
+        try:
+            concurrent_conv.section(ctx, env, trials=(60 if ctx.tier == "quick" else 1500), key="C04")
+        finally:
+            mon.paused = False
+
     # (b) synthetic, exactly consistent systems in fresh processes
     nsys = ctx.scale(160, 4000)
     synth.run_systems(ctx, nsys, mode="c04")
